@@ -39,8 +39,14 @@ ImplAfterV2(r) ==
             k == FM16!FirstV2(r.files[f].length, cs)
         IN IF k = 0 THEN "absent" ELSE IF cs[k] = "intact" THEN "intact" ELSE "cand:" \o cs[k]]
 
+\* path resolution + destination test + copypath at the record's world (clause M19.impl)
+PR == INSTANCE PathRes WITH Variant <- "fixed", w <- 0, entry <- 0, done <- 0
+PlaceOf(r) == PR!Place([dirs |-> SeqToSet(r.world.dirs), files |-> SeqToSet(r.world.files),
+                        links |-> {<<l[1], l[2]>> : l \in SeqToSet(r.world.links)}], r.world.dest, r.world.entry)
+
 Clause(r, c) ==
-  CASE c = "M13.impl" -> r.status # "ok" \/ r.P \notin {2, 16384, 32768} \/ r.ntorrents # 1 \/ r.runs # 1
+  CASE c = "M19.impl" -> SeqToSet(PlaceOf(r).muts) = SeqToSet(r.touched)
+    [] c = "M13.impl" -> r.status # "ok" \/ r.P \notin {2, 16384, 32768} \/ r.ntorrents # 1 \/ r.runs # 1
                          \/ (\E k \in DOMAIN r.files : r.files[k].dest_pre # "absent")
                          \/ [k \in DOMAIN r.files |-> r.files[k].after] = (IF r.version = 1 THEN ImplAfter(r) ELSE ImplAfterV2(r))
     [] c = "C13.complete" -> r.status = "ok" /\ Complete(r.files)
